@@ -92,6 +92,12 @@ def check(spec):
                 except AssertionError:
                     # KDRandomRotation asserts lb == ub; both instances are treated alike (a compose stops at the same member)
                     pass
+    if spec.get("detour") is not None and spec.get("pre_scale") is not None and hasattr(A, "scale_strength"):
+        # strength depends only on the last factor given: instance A takes a detour (e.g. through 0) before reaching the same factor
+        try:
+            A.scale_strength(spec["detour"])
+        except AssertionError:
+            pass
     _scale(spec.get("pre_scale"))
     try:
         A.set_rng(np.random.default_rng(s))
@@ -142,7 +148,7 @@ def _culprit(t):
 def _wrap(tstrat):
     return st.fixed_dictionaries({"t": tstrat, "key": st.integers(0, 400), "seed": st.integers(0, 2 ** 32 - 1),
                                   "m": st.integers(1, 5), "h": st.integers(0, 3), "g1": st.integers(0, 2 ** 31),
-                                  "g2": st.integers(0, 2 ** 31), "pre_scale": st.sampled_from([None, None, 0.0, 0.5]),
+                                  "g2": st.integers(0, 2 ** 31), "pre_scale": st.sampled_from([None, None, 0.0, 0.5, 1.0]), "detour": st.sampled_from([None, 0.0, 0.0, 0.3]),
                                   "post_scale": st.sampled_from([None, 1.0, 0.7])})
 
 
